@@ -22,7 +22,8 @@ from ..tlc import run_tlc, write_cfg, MachineryError
 
 PROPS = ("C02", "C09", "C12", "C14")
 K = 10000
-BASE = dict(ActStrict=True, ShiftByMin=True, LatentCPs=set(), DoEmit=True)
+BASE = dict(ActStrict=True, ShiftByMin=True, LatentCPs=set(), DoEmit=True, Shard=0, NShards=1)
+DEEP_SHARDS = 64          # deep3 has about a million inputs (each exported with ~10 descriptions): one shard of 64 by VERIF_SEED
 CFG = {
     "quick2": dict(Temps={0, 100, 200}, CPs={1, 2}, DTCs={0, 50}, MaxStreams=2, NZones=2, Ladders={0, 1, 2, 3, 4, 6}),
     "quick3": dict(Temps={0, 100, 200}, CPs={1, 2}, DTCs={0, 50}, MaxStreams=3, NZones=2, Ladders={0, 1, 2}),
@@ -38,6 +39,9 @@ EMB_SCALE = Emb("native*3.7", 100.0, 0.01, 3.7, True)
 
 def gen_cases(name):
     consts = dict(BASE); consts.update(CFG[name])
+    if name == "deep3":
+        from ..common import seed
+        consts.update(Shard=seed() % DEEP_SHARDS, NShards=DEEP_SHARDS)
     tmp = Path(tempfile.mkdtemp(prefix="tlccfg_"))
     try:
         cfg = tmp / "mc.cfg"
